@@ -27,6 +27,7 @@ Definition ug_free (g : ug) : Z := u_capacity (ug_l g).
 Definition ug_empty (ns : Z) : ug := {| ug_l := u_empty ns; ug_live := [] |}.
 Definition ucoll := cpool ug.
 Definition uc_step (log2 : bool) : ucoll -> coll_op -> option (ucoll * obs * list ev) := cc_step ug ug_ns ug_free ugstep (coll_bkt log2) intr_usable.
+Definition uc_reserve (log2 : bool) := cc_reserve_op ug ug_ns ugstep (coll_bkt log2) intr_usable.
 Definition uc_run (log2 : bool) := cc_run ug ug_ns ug_free ugstep (coll_bkt log2) intr_usable.
 Definition uc_construct (log2 : bool) (k : akind) (fence max block_size : Z) (answer : option Z) :=
   cc_construct ug intr_usable (fun _ => map ug_empty (coll_sizes log2 max)) (length (coll_sizes log2 max)) k fence (coll_max log2 max) block_size 24 8 answer.
@@ -39,6 +40,7 @@ Definition o_of_u (o : u_op) : o_op :=
 Definition og_step (g : og) (o : u_op) : option (og * option Z) := ogstep false false g (o_of_u o).
 Definition ocoll := cpool og.
 Definition oc_step (log2 : bool) : ocoll -> coll_op -> option (ocoll * obs * list ev) := cc_step og og_ns og_free og_step (coll_bkt log2) intr_usable.
+Definition oc_reserve (log2 : bool) := cc_reserve_op og og_ns og_step (coll_bkt log2) intr_usable.
 Definition oc_run (log2 : bool) := cc_run og og_ns og_free og_step (coll_bkt log2) intr_usable.
 Fixpoint og_array (m : Z) (sizes : list Z) : list og :=
   match sizes with [] => [] | ns :: tl => {| og_l := o_empty m (m + 8) ns; og_live := [] |} :: og_array (m + 48) tl end.
@@ -64,6 +66,7 @@ Definition small_usable (ns size : Z) : Z :=
 Definition sg_empty (ns : Z) : smg := {| g_l := sm_empty ns; g_live := [] |}.
 Definition scoll := cpool smg.
 Definition sc_step (log2 : bool) : scoll -> coll_op -> option (scoll * obs * list ev) := cc_step smg sg_ns sg_free sg_step (coll_bkt_me 1%N log2) small_usable.
+Definition sc_reserve (log2 : bool) := cc_reserve_op smg sg_ns sg_step (coll_bkt_me 1%N log2) small_usable.
 Definition sc_run (log2 : bool) := cc_run smg sg_ns sg_free sg_step (coll_bkt_me 1%N log2) small_usable.
 Definition sc_max (log2 : bool) (max : Z) : Z := last (coll_sizes_me 1%N log2 max) 0.
 Definition sc_construct (log2 : bool) (k : akind) (fence max block_size : Z) (answer : option Z) :=
